@@ -1350,6 +1350,11 @@ func (fc *funcContext) translateImplicitConversion(expr ast.Expr, desiredType ty
 
 func (fc *funcContext) translateConversionToSlice(expr ast.Expr, desiredType types.Type) *expression {
 	switch fc.typeOf(expr).Underlying().(type) {
+	case *types.Pointer:
+		// Slicing a nil pointer to an array must panic.
+		return fc.formatExpr("(%2e.nilCheck, new %1s(%2e))", fc.typeName(desiredType), expr)
+	}
+	switch fc.typeOf(expr).Underlying().(type) {
 	case *types.Array, *types.Pointer:
 		return fc.formatExpr("new %s(%e)", fc.typeName(desiredType), expr)
 	}
